@@ -43,6 +43,8 @@ type Profile struct {
 	AimPct         int  // chance per block that the block time is aimed at a pending maturity / jail expiry (+-1 s)
 	SecondDenom    bool // some genesis accounts also hold a second denomination ("abc"); fees may be offered in it
 	Whale          bool // one account holds ~2^90 tokens and stakes amounts whose power does not fit an int64
+	EdgeAddresses     bool // two of the genesis validators have addresses ending in 0xFF and 0x00
+	UnstakingTimeChanges bool // governance changes pos/UnstakingTime (both directions) while validators are unstaking
 	RichGenesis       bool // genesis validators in jail / unstaking (with signing infos and queue entries), as in an exported state
 	ExportedGenesis   bool // ... and the pos genesis is marked "exported" with previous-state powers
 	HugeFeeMultipliers bool // governance may set a per-message fee multiplier whose product with the base fee overflows int64
@@ -128,6 +130,11 @@ func NewWorld(seed uint64, p Profile, idx *TxIndex) *World {
 	r := NewRand(seed)
 	w := &World{R: r, P: p, ByAddr: map[string]*Actor{}, missPct: map[string]int{}, MissOverride: map[string]int{}, Reserved: map[string]bool{}, DirectToPool: new(big.Int), OwnerOf: map[string]*Actor{}, Tomb: map[string]bool{}}
 	for i := 0; i < p.NEd; i++ {
+		if p.EdgeAddresses && (i == 1 || i == 2) {
+			// validators whose address (hence every store prefix derived from it) ends in 0xFF / 0x00
+			w.Eds = append(w.Eds, NewEdActorWithLastByte(seed, i, []byte{0, 0xFF, 0x00}[i]))
+			continue
+		}
 		w.Eds = append(w.Eds, NewEdActor(seed, i))
 	}
 	for i := 0; i < p.NSecp; i++ {
@@ -227,6 +234,13 @@ func NewWorld(seed uint64, p Profile, idx *TxIndex) *World {
 		g.Validators = append(g.Validators, gv)
 	}
 	g.Exported = p.RichGenesis && p.ExportedGenesis && uint64(len(g.Validators)) <= g.PosParams.MaxValidators
+	if p.RichGenesis && len(w.Eds) > p.GenesisVals+2 {
+		// a key convicted of double signing on the exported chain whose validator record is gone: only its
+		// (tombstoned) signing info travels in the genesis state
+		t := w.Eds[p.GenesisVals]
+		g.Tombstoned = append(g.Tombstoned, t)
+		w.Tomb[t.AddrHex()] = true
+	}
 	w.Cfg = g
 	w.Now = GenesisTime
 	w.Env = NewEnv(idx)
